@@ -113,7 +113,7 @@ def cl_classes(blen, maxlen):
 
 def build_wsgi(kind, chunked, maxlen, block, rec, events_box):
     from spyne.server.wsgi import WsgiApplication
-    app = M.build_app(kind, rec, validator='soft')
+    app = M.build_app(kind, rec, validator='soft', behaviours={'files': True} if kind == 'httprpc' else None)
     w = WsgiApplication(app, chunked=chunked, max_content_length=maxlen, block_length=block)
 
     def on_closed(ctx):
@@ -311,6 +311,10 @@ def run(spec, R):
         if kind == 'httprpc' and rname in ('gen', 'gen0', 'gen_late_exc', 'pair', 'pair_ignored', 'pair_empty', 'pair_short', 'pair_none', 'pair_scalar'):
             continue        # HttpRpc as *output* protocol only serialises primitives
         reqs.append((rname, M.encode_request(kind, meth, args)))
+    if kind == 'httprpc':
+        # File return values in each of the forms File.Value takes (HttpRpc writes them as the body)
+        for how in ('chunks', 'one_chunk', 'empty', 'path', 'handle', 'rolled_over', 'mmap_tuple', 'nosuch'):
+            reqs.append(('file_' + how, M.encode_request(kind, 'file_out', [('how', how)])))
     if kind not in ('httprpc', 'httprpc-json'):
         reqs.append(('malformed', dict(method='POST', path='/', qs='', body=M.malformed_body(kind),
                                        content_type=reqs[0][1]['content_type'])))
